@@ -199,6 +199,43 @@ func H_C20_gcs_pairs() {
 	vReach("c20-gcs-pairs")
 }
 
+// H_C20_multipart: multipart/related uploads with too few parts, a missing or foreign boundary, or
+// an undecodable metadata document: answered with an error status, never a panic.
+func H_C20_multipart() {
+	g := vNewEmu()
+	vPut(g, "b", "keep", []byte("kept"))
+	var parts []vPartData
+	n := vChoice("parts", 0, 3)
+	for i := 0; i < n; i++ {
+		if i == 0 && vChoice("metadata.decodable", 0, 1) == 1 {
+			parts = append(parts, vPartData{decode: func(v interface{}) error {
+				v.(*storage.Object).Name = "up"
+				return nil
+			}})
+		} else {
+			parts = append(parts, vPartData{raw: vNondetBytes("part", 1)})
+		}
+	}
+	if parts == nil {
+		parts = []vPartData{}
+	}
+	ct := []string{"multipart/related; boundary=" + vBoundary, "multipart/related", "multipart/related; boundary=other", "text/plain", ""}[vChoice("content-type", 0, 4)]
+	hdr := http.Header{}
+	if ct != "" {
+		hdr.Set("Content-Type", ct)
+	}
+	w := vNewRecorder()
+	req := &http.Request{Form: url.Values{"uploadType": []string{"multipart"}}, Header: hdr, Body: &vBody{parts: parts}}
+	panicked := c15Call(func() { g.handleGcsNewObject(vCtx(), dontNeedUrls, w, req, "b", emptyConds) })
+	c20Check(w, panicked, "multipart")
+	if !panicked && (n < 2 || ct != "multipart/related; boundary="+vBoundary) {
+		vAssert(w.code >= 400, "multipart:incomplete-upload-is-an-error")
+	}
+	st := vSnap(g, "b", "keep")
+	vAssert(st.exists && string(st.content) == "kept", "multipart:stored-data-still-served")
+	vReach("c20-multipart")
+}
+
 // H_C20_batch: a batch request of 1..2 parts, each with an arbitrary part content type and an
 // embedded request whose declared Content-Length is ANY int64 and whose body has 0..2 bytes: the
 // handler never panics, always answers, and a 200 carries exactly one sub-response per part.
@@ -252,6 +289,7 @@ func H_C20_batch() {
 
 func init() {
 	vHarnesses["H_C20_batch"] = H_C20_batch
+	vHarnesses["H_C20_multipart"] = H_C20_multipart
 	vHarnesses["H_C20_gcs_inputs"] = H_C20_gcs_inputs
 	vHarnesses["H_C20_gcs_pairs"] = H_C20_gcs_pairs
 }
